@@ -204,10 +204,20 @@ b2 := {call: m{boom()}, _iter: m{boom()}, at: m{|i| boom()}, **ops}
 BS := Str.bear(ops)
 b3 := BS.new("q")
 bf := {|a, b, c| boom()}
+itb := <{|i| boom()}>.new(0)
+itb2 := <{|i| boom()}>.new(0)
+itc := <{|i| boom() if i != 1; yield i; recur(i + 1)}>.new(1)
+itb.try.next
+itb2.try.next
+itb2.try.next
+itc.try.next
+nil
 `
 
 var bombRecvs = []string{"[1, b1, 3]", "[b1, 1]", "[3, 1, b2]", "[b2]", "[3, b3]", "{a: 1, b: b1}", "%{1: b1, 2: 3}", "%{b1: 1}", "(1:b1)", "(b1:5)", "b1", "b2", "b3", "[1, 2, 3]", `"abc"`, "{a: 1, b: 2}", "(1:4)", "%{1: 2}", "5", "2.5",
-	"<{|i| yield i if i < 3; recur(i + 1)}>.new(0)", "<{|i| yield boom() if i < 3; recur(i + 1)}>.new(0)", "nil", "{|x| x}", "bf"}
+	"<{|i| yield i if i < 3; recur(i + 1)}>.new(0)", "<{|i| yield boom() if i < 3; recur(i + 1)}>.new(0)", "nil", "{|x| x}", "bf",
+	// iterators whose body has raised before (the first raise was caught): every further step raises again
+	"itb", "itb2", "itc"}
 var bombArgs = []string{"", "bf", "b1", "b2", "1, bf", "1", "[b1]", "b1, b1", "bf, 1", "b3", "[1, b1]", "{a: b1}"}
 
 // handlersByDesign: properties documented to capture a failure (built on try / Either); the error reaching them is the
@@ -245,6 +255,14 @@ func judgeCall(c *Case) (sig, detail string, reached bool) {
 	o := in.Run(c.Call, interp.Opts{Env: env})
 	out := strings.ReplaceAll(o.Stdout, "\"", "")
 	i := strings.Index(out, "BOOM\n")
+	if c.Handler == "must-raise" && o.Kind != interp.Fuel {
+		// the call runs a body that raises every time it runs: no earlier (caught) raise may have disarmed it
+		if o.Kind != interp.PanErr || o.ErrKind != "ValueErr" || o.ErrMsg != "inj" || i < 0 {
+			c.Got, c.Want = o.Show(), "error ValueErr: inj"
+			return "raise-lost-after-an-earlier-caught-raise", fmt.Sprintf("%s: the iterator's body raises ValueErr: inj on every run (an earlier run was caught by try); this call gave %s, marker printed: %v", c.Call, o.Show(), i >= 0), true
+		}
+		return "", "", true
+	}
 	if i < 0 || o.Kind == interp.Fuel {
 		return "", "", false
 	}
@@ -305,6 +323,19 @@ func TestBuiltinsPropagate(t *testing.T) {
 					}
 				}
 			}
+		}
+	}
+	for i, call := range []string{"itb.next", "itb2.next", "itb.next; 1", "[itb2.try.next.err.msg, itb2.next][1]", "itb._iter.next", "itb.new(0).next", "itb.A", "itb@{|x| x}", "itb$(0){|a, x| a}"} {
+		if !vt.Mine(i + 1) {
+			continue
+		}
+		c := Case{Call: call, Handler: "must-raise", Kind: "ValueErr"}
+		sig, detail, _ := judgeCall(&c)
+		vt.Eval()
+		vt.Class("iterator advanced again after its body raised once")
+		vt.NonTrivial(call, func() any { return call + " => " + c.Got })
+		if sig != "" {
+			vt.Record(sig, detail, c)
 		}
 	}
 	vt.Exhaustive(fmt.Sprintf("every property reachable from %d receivers x %d argument lists with raising operands", len(bombRecvs), len(bombArgs)))
